@@ -23,7 +23,7 @@
 //                                   with at least two element types per functor, so that a failure replays in a fresh
 //                                   process.
 //
-// "light" element types (uchar short ushort uint ulong float ldouble cfloat cldouble llong pod ...) exercise the rest
+// "light" element types (uchar short ushort uint ulong float ldouble cfloat cldouble llong bool schar ullong pod ...) exercise the rest
 // of the ComposeMPITraits table and the byte-wise fallback datatype; they are instantiated for reductions
 // (sc/ip/io), bcast.ptr, gatherv.ptr, allgather.ptr, MPIPack scalars/vectors and the typemap decoding only.
 #include <config.h>
@@ -240,6 +240,24 @@ LIGHT_TT(short, "short", true);
 LIGHT_TT(unsigned short, "ushort", true);
 LIGHT_TT(unsigned int, "uint", true);
 LIGHT_TT(long long, "llong", false);
+// round five (C07_w5m2): the arithmetic types WITHOUT a ComposeMPITraits line (byte-wise fallback + functor trampoline)
+LIGHT_TT(signed char, "schar", false);
+template <> struct TT<bool> {
+  static constexpr int E = 1;
+  static constexpr bool trueScalar = true, intrinsic = false, light = true;
+  static const char* name() { return "bool"; }
+  static void to(const bool& x, cell* c) { c[0] = x ? 1 : 0; }
+  static bool from(const cell* c) { return c[0] != 0; }
+  static std::vector<int> comm() { return {0}; }
+};
+template <> struct TT<unsigned long long> {
+  static constexpr int E = 1;
+  static constexpr bool trueScalar = true, intrinsic = false, light = true;
+  static const char* name() { return "ullong"; }
+  static void to(const unsigned long long& x, cell* c) { c[0] = (cell)(unsigned __int128)x; }
+  static unsigned long long from(const cell* c) { return (unsigned long long)(unsigned __int128)c[0]; }
+  static std::vector<int> comm() { return {0}; }
+};
 template <> struct TT<unsigned long> {
   static constexpr int E = 1;
   static constexpr bool trueScalar = true, intrinsic = true, light = true;
@@ -355,10 +373,50 @@ template <> struct TT<Big40> {
 template <class T, class = void> struct IsLight : std::false_type {};
 template <class T> struct IsLight<T, std::enable_if_t<TT<T>::light>> : std::true_type {};
 
-template <class T> std::vector<T> fromCells(const Cells& c) {
+// std::vector<bool> is a bit container without data(): buffers of element type bool use this contiguous stand-in
+class BoolVec {
+  bool* p_ = nullptr;
+  size_t n_ = 0, cap_ = 0;
+  void grow(size_t c) {
+    if (c <= cap_) return;
+    bool* q = new bool[c]();
+    std::copy(p_, p_ + n_, q);
+    delete[] p_;
+    p_ = q; cap_ = c;
+  }
+public:
+  using value_type = bool;
+  BoolVec() = default;
+  explicit BoolVec(size_t n, bool v = false) { resize(n, v); }
+  template <class It, class = typename std::iterator_traits<It>::value_type> BoolVec(It a, It b) { for (; a != b; ++a) push_back(*a); }
+  BoolVec(const BoolVec& o) { grow(o.n_); std::copy(o.p_, o.p_ + o.n_, p_); n_ = o.n_; }
+  BoolVec(BoolVec&& o) noexcept : p_(o.p_), n_(o.n_), cap_(o.cap_) { o.p_ = nullptr; o.n_ = o.cap_ = 0; }
+  BoolVec& operator=(BoolVec o) { std::swap(p_, o.p_); std::swap(n_, o.n_); std::swap(cap_, o.cap_); return *this; }
+  ~BoolVec() { delete[] p_; }
+  bool* data() { return p_; }
+  const bool* data() const { return p_; }
+  size_t size() const { return n_; }
+  bool empty() const { return n_ == 0; }
+  bool* begin() { return p_; }
+  bool* end() { return p_ + n_; }
+  const bool* begin() const { return p_; }
+  const bool* end() const { return p_ + n_; }
+  bool& operator[](size_t i) { return p_[i]; }
+  const bool& operator[](size_t i) const { return p_[i]; }
+  bool& at(size_t i) { if (i >= n_) throw std::out_of_range("BoolVec::at"); return p_[i]; }
+  const bool& at(size_t i) const { if (i >= n_) throw std::out_of_range("BoolVec::at"); return p_[i]; }
+  void reserve(size_t c) { grow(c); }
+  void push_back(bool v) { if (n_ == cap_) grow(cap_ ? 2 * cap_ : 8); p_[n_++] = v; }
+  void resize(size_t n, bool v = false) { grow(n); for (size_t i = n_; i < n; ++i) p_[i] = v; n_ = n; }
+};
+template <class T> struct VecOf { using type = std::vector<T>; };
+template <> struct VecOf<bool> { using type = BoolVec; };
+template <class T> using Vec = typename VecOf<T>::type;
+
+template <class T> Vec<T> fromCells(const Cells& c) {
   constexpr int E = TT<T>::E;
   if (c.size() % E) throw std::runtime_error("cell count not a multiple of the element size");
-  std::vector<T> v;
+  Vec<T> v;
   v.reserve(c.size() / E);
   for (size_t i = 0; i < c.size(); i += E) v.push_back(TT<T>::from(&c[i]));
   return v;
@@ -370,6 +428,7 @@ template <class T> Cells toCells(const T* p, size_t n) {
   return c;
 }
 template <class T> Cells toCells(const std::vector<T>& v) { return toCells(v.data(), v.size()); }
+inline Cells toCells(const BoolVec& v) { return toCells(v.data(), v.size()); }
 
 template <class T> struct Tag { using type = T; };
 template <class F> bool withType(const std::string& ty, F&& f) {
@@ -393,6 +452,9 @@ template <class F> bool withType(const std::string& ty, F&& f) {
   else if (ty == "cfloat") f(Tag<CplxF>{});
   else if (ty == "cldouble") f(Tag<CplxL>{});
   else if (ty == "llong") f(Tag<long long>{});
+  else if (ty == "bool") f(Tag<bool>{});
+  else if (ty == "schar") f(Tag<signed char>{});
+  else if (ty == "ullong") f(Tag<unsigned long long>{});
   else if (ty == "pod") f(Tag<Pod>{});
   else if (ty == "pairlc") f(Tag<PairLC>{});
   else if (ty == "ppair") f(Tag<PPair>{});
@@ -404,7 +466,7 @@ template <class F> bool withType(const std::string& ty, F&& f) {
   return true;
 }
 static bool isLightName(const std::string& ty) {
-  static const std::vector<std::string> L = {"uchar", "short", "ushort", "uint", "ulong", "float", "ldouble", "cfloat", "cldouble", "llong", "pod", "ppair", "fvp", "big40", "fv2", "pairis"};
+  static const std::vector<std::string> L = {"uchar", "short", "ushort", "uint", "ulong", "float", "ldouble", "cfloat", "cldouble", "llong", "bool", "schar", "ullong", "pod", "ppair", "fvp", "big40", "fv2", "pairis"};
   return std::find(L.begin(), L.end(), ty) != L.end();
 }
 struct TyInfo { int E; std::vector<int> comm; };
@@ -461,6 +523,8 @@ template <class T, class F> bool withFun(const std::string& fn, F&& f) {
   constexpr bool lightArith = std::is_same_v<T, unsigned char> || std::is_same_v<T, short> || std::is_same_v<T, unsigned short> ||
                               std::is_same_v<T, unsigned int> || std::is_same_v<T, unsigned long> || std::is_same_v<T, float> ||
                               std::is_same_v<T, long double> || std::is_same_v<T, long long>;
+  // bool / signed char / unsigned long long: the four named functors only
+  constexpr bool namedOnly = std::is_same_v<T, bool> || std::is_same_v<T, signed char> || std::is_same_v<T, unsigned long long>;
   constexpr bool cplx = std::is_same_v<T, Cplx> || std::is_same_v<T, CplxF> || std::is_same_v<T, CplxL>;
   constexpr bool arith = std::is_same_v<T, int> || std::is_same_v<T, long> || std::is_same_v<T, double> || lightArith;
   constexpr bool fvi = std::is_same_v<T, FV3> || std::is_same_v<T, FV2>;
@@ -482,15 +546,15 @@ template <class T, class F> bool withFun(const std::string& fn, F&& f) {
     if (fn == "left") { f(Tag<Left>{}); return true; }
     if (fn == "right") { f(Tag<Right>{}); return true; }
   }
-  if constexpr (arith || cplx || fvi || big)
+  if constexpr (arith || namedOnly || cplx || fvi || big)
     if (fn == "sum") { f(Tag<std::plus<T>>{}); return true; }
-  if constexpr (arith || cplx || std::is_same_v<T, Big> || std::is_same_v<T, Big40>)
+  if constexpr (arith || namedOnly || cplx || std::is_same_v<T, Big> || std::is_same_v<T, Big40>)
     if (fn == "prod") { f(Tag<std::multiplies<T>>{}); return true; }
   if constexpr (std::is_same_v<T, int>)
     if (fn == "first") { f(Tag<First>{}); return true; }
   if constexpr (std::is_same_v<T, FV3>)
     if (fn == "aff") { f(Tag<Aff>{}); return true; }
-  if constexpr (arith || big || std::is_same_v<T, PairIC> || std::is_same_v<T, PairLC> || std::is_same_v<T, PairIS>) {
+  if constexpr (arith || namedOnly || big || std::is_same_v<T, PairIC> || std::is_same_v<T, PairLC> || std::is_same_v<T, PairIS>) {
     if (fn == "min") { f(Tag<Dune::Min<T>>{}); return true; }
     if (fn == "max") { f(Tag<Dune::Max<T>>{}); return true; }
   }
@@ -503,7 +567,7 @@ template <class T, class F> bool withFun(const std::string& fn, F&& f) {
 static std::vector<std::string> funsOf(const std::string& ty) {
   if (ty == "int") return {"sum", "prod", "min", "max", "xor", "first", "first"};
   if (ty == "long" || ty == "double" || ty == "big96" || ty == "big40") return {"sum", "prod", "min", "max"};
-  if (ty == "uchar" || ty == "short" || ty == "ushort" || ty == "uint" || ty == "ulong" || ty == "float" || ty == "ldouble" || ty == "llong")
+  if (ty == "uchar" || ty == "short" || ty == "ushort" || ty == "uint" || ty == "ulong" || ty == "float" || ty == "ldouble" || ty == "llong" || ty == "bool" || ty == "schar" || ty == "ullong")
     return {"sum", "prod", "min", "max"};
   if (ty == "complex" || ty == "cfloat" || ty == "cldouble") return {"sum", "prod"};
   if (ty == "fv3") return {"sum", "cwmax", "aff", "aff"};
@@ -631,6 +695,8 @@ static Cells redElem(const std::string& ty, const std::string& fn0, const Cells&
   if (fn == "aff") return {(a[0] * b[0]) % 1009, (b[0] * a[1] + b[1]) % 1009, a[2] + b[2]};
   if (ty == "pair" || ty == "pairlc" || ty == "pairis") return fn == "min" ? (lexLess(b, a) ? b : a) : (lexLess(a, b) ? b : a);
   for (size_t i = 0; i < a.size(); ++i) {
+    // bool: std::plus<bool> converts the int sum back to bool (logical or); prod/min/max stay within {0,1}
+    if (ty == "bool" && fn == "sum") { r[i] = (a[i] != 0 || b[i] != 0) ? 1 : 0; continue; }
     if (ty == "big96" || ty == "big40") {
       unsigned __int128 x = (unsigned __int128)a[i], y = (unsigned __int128)b[i];
       const unsigned __int128 MASK = ty == "big96" ? MASK96 : MASK48;
@@ -914,9 +980,9 @@ std::vector<T> callColl(CC& cc, const std::string& op, const Local& L) {
 
 // the restricted set of calls instantiated for the light element types
 template <class T>
-std::vector<T> callLight(MpiComm& cc, const std::string& op, const Local& L) {
+Vec<T> callLight(MpiComm& cc, const std::string& op, const Local& L) {
   std::string base = baseOf(op), form = formOf(op);
-  std::vector<T> in = fromCells<T>(L.in), out = fromCells<T>(L.out);
+  Vec<T> in = fromCells<T>(L.in), out = fromCells<T>(L.out);
   std::vector<int> lens = L.lens, displs = L.displs;
   int n = L.n, root = L.root;
   auto ok = [](int rc) { if (rc != 0) throw std::runtime_error("collective returned an error code"); };
@@ -931,6 +997,14 @@ std::vector<T> callLight(MpiComm& cc, const std::string& op, const Local& L) {
             else if constexpr (std::is_same_v<F, Dune::Min<T>>) out[0] = cc.min(in[0]);
             else if constexpr (std::is_same_v<F, Dune::Max<T>>) out[0] = cc.max(in[0]);
             else return;
+            done = true;
+          } else if (form == "ar") {  // int sum(T* inout, int len)
+            if constexpr (std::is_same_v<F, std::plus<T>>) ok(cc.sum(in.data(), n));
+            else if constexpr (std::is_same_v<F, std::multiplies<T>>) ok(cc.prod(in.data(), n));
+            else if constexpr (std::is_same_v<F, Dune::Min<T>>) ok(cc.min(in.data(), n));
+            else if constexpr (std::is_same_v<F, Dune::Max<T>>) ok(cc.max(in.data(), n));
+            else return;
+            std::copy(in.begin(), in.begin() + n, out.begin());
             done = true;
           } else if (form == "ip") {
             ok(cc.template allreduce<F>(in.data(), n));
@@ -1170,7 +1244,7 @@ static bool packSupported(const PItem& it) {
   bool light = isLightName(it.ty);
   if (it.kind == "s") return true;
   if (it.kind == "a") return !light;
-  if (it.kind == "v") return it.ty != "char";
+  if (it.kind == "v") return it.ty != "char" && it.ty != "bool";  // std::vector<bool> is no contiguous container
   if (it.kind == "t") return it.ty == "char";
   return false;
 }
@@ -1606,7 +1680,7 @@ static Result execHist(const std::string& line) {
 // generator
 // ------------------------------------------------------------------------------------------------------------------
 static const std::vector<std::string> ELEM_TYPES = {"int", "long", "double", "complex", "fv3", "big96", "pair", "pairlc", "ip", "pli"};
-static const std::vector<std::string> LIGHT_TYPES = {"uchar", "short", "ushort", "uint", "ulong", "float", "ldouble", "cfloat", "cldouble", "llong", "pod", "ppair", "fvp", "big40", "fv2", "pairis"};
+static const std::vector<std::string> LIGHT_TYPES = {"uchar", "short", "ushort", "uint", "ulong", "float", "ldouble", "cfloat", "cldouble", "llong", "bool", "schar", "ullong", "pod", "ppair", "fvp", "big40", "fv2", "pairis"};
 
 static cell rnd128(Rng& g, int bits) {
   unsigned __int128 v = ((unsigned __int128)g.next() << 64) | g.next();
@@ -1653,6 +1727,9 @@ static Cells genElem(Rng& g, const std::string& ty, const std::string& purpose) 
   if (ty == "ulong" && purpose == "half") return {pickInt(g, 0, (cell)LONG_MAX)};
   if (ty == "ulong") return {ranged(0, (cell)(unsigned __int128)ULONG_MAX, 500)};
   if (ty == "llong") return {ranged((cell)LLONG_MIN, (cell)LLONG_MAX, 256)};
+  if (ty == "bool") return {(cell)g.below(2)};
+  if (ty == "schar") return {ranged(-128, 127, 2)};
+  if (ty == "ullong") return {ranged(0, (cell)(unsigned __int128)ULLONG_MAX, 500)};
   if (ty == "float") return {ranged(-P24, P24, 10)};
   if (ty == "ldouble") return {ranged(-P53, P53, 100)};
   if (ty == "cfloat") return {ranged(-P24, P24, 5), ranged(-P24, P24, 5)};
@@ -1728,7 +1805,7 @@ static std::string genColl(Rng& g, int P, const Force* force = nullptr) {
   if (force) k.ty = force->ty;
   bool trueScalar = k.ty != "fv3" && k.ty != "fvp" && k.ty != "fv2";
   bool intr = k.ty == "int" || k.ty == "long" || k.ty == "double" || k.ty == "complex";
-  if (light) intr = !(k.ty == "llong" || k.ty == "pod" || k.ty == "ppair" || k.ty == "fvp" || k.ty == "big40" || k.ty == "fv2" || k.ty == "pairis");
+  if (light) intr = !(k.ty == "llong" || k.ty == "bool" || k.ty == "schar" || k.ty == "ullong" || k.ty == "pod" || k.ty == "ppair" || k.ty == "fvp" || k.ty == "big40" || k.ty == "fv2" || k.ty == "pairis");
   int np = world ? P : 1;
   k.root = (int)g.below(P);
   k.n = genLen(g);
@@ -1754,6 +1831,7 @@ static std::string genColl(Rng& g, int P, const Force* force = nullptr) {
     if (fn == "sum" || fn == "prod" || fn == "min" || fn == "max") { forms.push_back("sc"); forms.push_back("ar"); }
     if (!light && (intr || trueScalar)) { forms.push_back("iio"); forms.push_back("iip"); if (!seq) forms.push_back("rv"); }
     if (light) forms = {"sc", "ip", "io"};
+    if (light && (fn == "sum" || fn == "prod" || fn == "min" || fn == "max")) forms.push_back("ar");
     if (light && isGenericFun(fn)) forms = {"ip", "io"};
     // container views: a vector<T> with a generic functor; a FieldVector object reduced entry by entry (functor on int)
     if (!light && isVGeneric(fn)) { forms.push_back("viio"); forms.push_back("viip"); if (!seq) forms.push_back("vrv"); }
@@ -1788,7 +1866,7 @@ static std::string genColl(Rng& g, int P, const Force* force = nullptr) {
       --g_longLeft;
       // just beyond 10 kB per contribution (Open MPI's switch from recursive doubling to the ring algorithm)
       // (MPI counts the bytes of the typemap, not the extent: 5 for pair<int,char>, 9 for pair<long long,char>)
-      int bytes = k.ty == "fv3" || k.ty == "big96" ? 12 : (k.ty == "pair" ? 5 : (k.ty == "llong" || k.ty == "fv2" ? 8 : (k.ty == "pairlc" ? 9 : (k.ty == "big40" || k.ty == "pairis" ? 6 : 4))));
+      int bytes = k.ty == "fv3" || k.ty == "big96" ? 12 : (k.ty == "pair" ? 5 : (k.ty == "llong" || k.ty == "ullong" || k.ty == "fv2" ? 8 : (k.ty == "pairlc" ? 9 : (k.ty == "big40" || k.ty == "pairis" ? 6 : 4))));
       k.n = 10400 / bytes + (int)g.range(0, 300);
       if (k.ty == "int" && fn != "sum" && fn != "prod") purpose = fn == "xor" ? "smallnn" : "small";  // short op lines
     }
@@ -1911,7 +1989,7 @@ static std::string genPack(Rng& g, int P) {
     std::string kind = g.pick(std::vector<std::string>{"s", "s", "a", "v", "v", "v", "t"});
     std::string ty = kind == "t" ? "char" : g.pick(ELEM_TYPES);
     if (kind == "s" && g.coin(1, 6)) ty = "char";
-    else if ((kind == "s" || kind == "v") && g.coin(1, 4)) ty = g.pick(LIGHT_TYPES);
+    else if ((kind == "s" || kind == "v") && g.coin(1, 4)) { ty = g.pick(LIGHT_TYPES); if (kind == "v" && ty == "bool") ty = "schar"; }
     int n = kind == "s" ? 1 : (kind == "a" ? 3 : genLen(g));
     int dn = (kind == "v" || kind == "t") ? genLen(g) : n;
     os << " " << kind << "/" << ty << "/" << cellsStr(genElems(g, ty, n)) << "/" << cellsStr(genElems(g, ty, dn));
@@ -1920,7 +1998,7 @@ static std::string genPack(Rng& g, int P) {
 }
 
 static const std::vector<std::string> TMAP_TYPES = {"int", "long", "double", "char", "complex", "fv3", "big96", "pair", "pli", "ip",
-                                                    "uchar", "short", "ushort", "uint", "ulong", "float", "ldouble", "cfloat", "cldouble", "llong", "pod", "pairlc", "ppair", "fvp", "big40", "fv2", "pairis"};
+                                                    "uchar", "short", "ushort", "uint", "ulong", "float", "ldouble", "cfloat", "cldouble", "llong", "bool", "schar", "ullong", "pod", "pairlc", "ppair", "fvp", "big40", "fv2", "pairis"};
 template <class T> static std::vector<T> shuffled(Rng& g, std::vector<T> v) {
   for (size_t i = v.size(); i > 1; --i) std::swap(v[i - 1], v[g.below(i)]);
   return v;
@@ -1947,7 +2025,7 @@ static std::string genHist(Rng& g, int P) {
       steps.insert(steps.begin() + (long)g.below(steps.size() + 1), genColl(g, P, &f));
     }
   } else if (mode == 1) {
-    static const std::vector<std::string> UT = {"big96", "big40", "fv3", "pair", "pairlc", "pairis", "llong", "int"};
+    static const std::vector<std::string> UT = {"big96", "big40", "fv3", "pair", "pairlc", "pairis", "llong", "int", "bool", "ullong"};
     std::string ty = g.pick(UT);
     auto funs = funsOf(ty);
     std::sort(funs.begin(), funs.end());
@@ -1956,7 +2034,7 @@ static std::string genHist(Rng& g, int P) {
     for (int i = 0; i < k; ++i) { Force f{ty, funs[i % funs.size()], "red"}; steps.push_back(genColl(g, P, &f)); }
   } else if (mode == 2) {
     static const std::vector<std::vector<std::string>> FAM = {{"fv3", "fv2", "fvp"}, {"big96", "big40"}, {"pair", "pairlc", "ppair", "pairis"},
-                                                              {"llong", "pod"}, {"pli", "ip"}, {"fv3", "fv2", "fvp"}, {"pair", "pairlc", "ppair", "pairis"}};
+                                                              {"llong", "pod", "bool", "schar", "ullong"}, {"pli", "ip"}, {"fv3", "fv2", "fvp"}, {"pair", "pairlc", "ppair", "pairis"}};
     auto fam = shuffled(g, g.pick(FAM));
     for (int i = 0; i < k; ++i) {
       const std::string& ty = fam[i % fam.size()];
